@@ -39,7 +39,7 @@ func (c05) Cases(tier string, race bool) int {
 	return 30000
 }
 
-var c05atoms = []string{"&", "<", ">", `"`, "'", "&amp;", "&lt;", "&#x41;", "&#65;", "]]>", "<![CDATA[", "--", "</r>", "a", "B", " ", "\t", "\n", "é", "世", "1", ";", "&amp;amp;", "&quot;", "&nbsp;", "&foo;"}
+var c05atoms = []string{"&", "<", ">", `"`, "'", "&amp;", "&lt;", "&#x41;", "&#65;", "]]>", "<![CDATA[", "--", "</r>", "a", "B", " ", "\t", "\n", "é", "世", "1", ";", "&amp;amp;", "&quot;", "&nbsp;", "&foo;", `<?xml version="1.1"?>`, `<?xml version="1.0" encoding="latin1"?>`, "<?pi x?>", "<!-- c -->", "<!DOCTYPE x>", "<a>", "<a/>"}
 
 var c05benign = []string{"&amp;", "&lt;", "&#x41;", "&#65;", "a", "B", " ", "é", "世", "1", ";", "&amp;amp;", "&quot;", "--"}
 
